@@ -1,37 +1,566 @@
 package main
 
-import "fmt"
+// Replay of solver counterexamples against the real code.
+//
+// Generic path (this file): functions and lemma harnesses whose parameters are
+// all scalars (integers, booleans, strings, floats, named versions thereof).
+// The model's parameter values are compiled into an in-package Go test that is
+// injected with `go test -overlay` (nothing is written into the repository),
+// the real function is called, and
+//   - for a harness: a failing vAssert at the obligation's source position, or
+//   - for nopanic obligations: an observed panic, or
+//   - for ensures clauses: the clause evaluated (by the solver) on the observed
+//     ground results being false
+// confirms the violation on the real code.
 
-// tryReplay attempts to turn a solver model into a concrete input and run it
-// against the real code. Returns true if the violation was confirmed.
-func tryReplay(o *CheckOpts, prog *Program, obligation, solverOutput string, rep map[string]interface{}) bool {
+import (
+	"bytes"
+	"context"
+	"encoding/json"
+	"fmt"
+	"go/types"
+	"math/big"
+	"os"
+	"os/exec"
+	"path/filepath"
+	"regexp"
+	"strconv"
+	"strings"
+	"time"
+
+	"golang.org/x/tools/go/ssa"
+)
+
+type replayCtx struct {
+	o    *CheckOpts
+	prog *Program
+	ob   *Obligation
+	fn   *ssa.Function
+	c    *Contract
+	rep  map[string]interface{}
+}
+
+func tryReplay(o *CheckOpts, prog *Program, ob *Obligation, rep map[string]interface{}) bool {
+	fn := prog.Funcs[ob.Func]
+	if fn == nil || ob.W == nil {
+		rep["replay"] = "no function for this obligation"
+		return false
+	}
+	rc := &replayCtx{o: o, prog: prog, ob: ob, fn: fn, c: prog.contractFor(fn), rep: rep}
 	for _, r := range replayers {
-		if r.match(o.Prop, obligation) {
-			return r.run(o, prog, obligation, solverOutput, rep)
+		if r.match(o.Prop, ob.Name) {
+			return r.run(rc)
 		}
 	}
-	rep["replay"] = "no replayer for this obligation; the solver model is attached"
-	return false
+	ok, why := rc.genericScalarReplay()
+	if why != "" {
+		rep["replay"] = why
+	}
+	return ok
 }
 
 type replayer struct {
 	match func(prop, obligation string) bool
-	run   func(o *CheckOpts, prog *Program, obligation, solverOutput string, rep map[string]interface{}) bool
+	run   func(rc *replayCtx) bool
 }
 
 var replayers []replayer
 
-func runReplay(path string) int {
-	fmt.Println("replay file:", path)
-	return replayFile(path)
+// getValues re-runs z3-new on the obligation's query asking for the values of terms.
+func getValues(ob *Obligation, terms []string, timeoutS int) (map[string]string, error) {
+	if len(terms) == 0 {
+		return map[string]string{}, nil
+	}
+	q := ob.W.queryText(ob, true)
+	q = strings.Replace(q, "(get-model)\n", "", 1)
+	q += "(get-value (" + strings.Join(terms, " ") + "))\n"
+	dir, err := os.MkdirTemp("", "govc-gv-")
+	if err != nil {
+		return nil, err
+	}
+	defer os.RemoveAll(dir)
+	f := filepath.Join(dir, "q.smt2")
+	os.WriteFile(f, []byte(q), 0o644)
+	for _, sp := range solvers[:2] {
+		r := runSolver(context.Background(), sp, f, timeoutS, 0)
+		if r.Status != "sat" {
+			continue
+		}
+		rest := strings.SplitN(r.Output, "\n", 2)
+		if len(rest) < 2 {
+			continue
+		}
+		xs, err := parseSexps(rest[1])
+		if err != nil || len(xs) == 0 {
+			continue
+		}
+		out := map[string]string{}
+		for _, pair := range xs[0].list {
+			if len(pair.list) == 2 {
+				out[pair.list[0].String()] = pair.list[1].String()
+			}
+		}
+		return out, nil
+	}
+	return nil, fmt.Errorf("no model from z3-new/z3")
 }
 
-func replayFile(path string) int {
-	b, err := readFile(path)
+// smtToGoLiteral converts an SMT value of a scalar sort to a Go expression of type gt.
+func smtToGoLiteral(val string, s *Sort, gt types.Type, qual types.Qualifier) (string, bool) {
+	tn := types.TypeString(gt, qual)
+	switch s.Kind {
+	case KBool:
+		return tn + "(" + val + ")", val == "true" || val == "false"
+	case KString:
+		str, ok := smtStringValue(val)
+		if !ok {
+			return "", false
+		}
+		return tn + "(" + strconv.Quote(str) + ")", true
+	case KInt:
+		if isNamed(gt, "time", "Time") {
+			return "", false
+		}
+		v, ok := smtIntValue(val, s)
+		if !ok {
+			return "", false
+		}
+		return tn + "(" + v.String() + ")", true
+	case KReal:
+		r, ok := smtRealValue(val)
+		if !ok {
+			return "", false
+		}
+		f, _ := r.Float64()
+		return tn + "(" + strconv.FormatFloat(f, 'g', -1, 64) + ")", true
+	}
+	return "", false
+}
+
+func smtStringValue(val string) (string, bool) {
+	if len(val) < 2 || val[0] != '"' {
+		return "", false
+	}
+	body := val[1 : len(val)-1]
+	body = strings.ReplaceAll(body, "\"\"", "\"")
+	re := regexp.MustCompile(`\\u\{([0-9a-fA-F]+)\}|\\u([0-9a-fA-F]{4})`)
+	body = re.ReplaceAllStringFunc(body, func(m string) string {
+		sub := re.FindStringSubmatch(m)
+		h := sub[1]
+		if h == "" {
+			h = sub[2]
+		}
+		n, _ := strconv.ParseInt(h, 16, 32)
+		return string(rune(n))
+	})
+	return body, true
+}
+
+func smtIntValue(val string, s *Sort) (*big.Int, bool) {
+	val = strings.TrimSpace(val)
+	if strings.HasPrefix(val, "#x") {
+		v, ok := new(big.Int).SetString(val[2:], 16)
+		if !ok {
+			return nil, false
+		}
+		if s.Signed && v.Bit(s.Bits-1) == 1 {
+			v.Sub(v, new(big.Int).Lsh(big.NewInt(1), uint(s.Bits)))
+		}
+		return v, true
+	}
+	if strings.HasPrefix(val, "#b") {
+		v, ok := new(big.Int).SetString(val[2:], 2)
+		if !ok {
+			return nil, false
+		}
+		if s.Signed && v.Bit(s.Bits-1) == 1 {
+			v.Sub(v, new(big.Int).Lsh(big.NewInt(1), uint(s.Bits)))
+		}
+		return v, true
+	}
+	if strings.HasPrefix(val, "(- ") {
+		v, ok := new(big.Int).SetString(strings.TrimSuffix(strings.TrimPrefix(val, "(- "), ")"), 10)
+		if !ok {
+			return nil, false
+		}
+		return v.Neg(v), true
+	}
+	v, ok := new(big.Int).SetString(val, 10)
+	return v, ok
+}
+
+func smtRealValue(val string) (*big.Rat, bool) {
+	val = strings.TrimSpace(val)
+	neg := false
+	if strings.HasPrefix(val, "(- ") {
+		neg = true
+		val = strings.TrimSuffix(strings.TrimPrefix(val, "(- "), ")")
+	}
+	var r *big.Rat
+	if strings.HasPrefix(val, "(/ ") {
+		parts := strings.Fields(strings.TrimSuffix(strings.TrimPrefix(val, "(/ "), ")"))
+		if len(parts) != 2 {
+			return nil, false
+		}
+		a, ok1 := new(big.Rat).SetString(parts[0])
+		b, ok2 := new(big.Rat).SetString(parts[1])
+		if !ok1 || !ok2 || b.Sign() == 0 {
+			return nil, false
+		}
+		r = new(big.Rat).Quo(a, b)
+	} else {
+		var ok bool
+		r, ok = new(big.Rat).SetString(val)
+		if !ok {
+			return nil, false
+		}
+	}
+	if neg {
+		r.Neg(r)
+	}
+	return r, true
+}
+
+func isScalarSort(s *Sort) bool {
+	switch s.Kind {
+	case KBool, KString, KReal:
+		return true
+	case KInt:
+		return s.Go == nil || !isNamed(s.Go, "time", "Time")
+	}
+	return false
+}
+
+const replayMarkers = `//go:build verif
+
+package %s
+
+import (
+	"fmt"
+	"runtime"
+)
+
+func vAssert(b bool) {
+	if !b {
+		_, file, line, _ := runtime.Caller(1)
+		fmt.Printf("GOVC-ASSERT-FAIL %%s:%%d\n", file, line)
+	}
+}
+func vAssume(b bool) {
+	if !b {
+		_, file, line, _ := runtime.Caller(1)
+		fmt.Printf("GOVC-ASSUME-FALSE %%s:%%d\n", file, line)
+	}
+}
+func vCover(b bool) {}
+`
+
+func (rc *replayCtx) genericScalarReplay() (bool, string) {
+	fn := rc.fn
+	w := rc.ob.W
+	if fn.Parent() != nil {
+		return false, "anonymous function: no generic replay"
+	}
+	pkg := fn.Pkg.Pkg
+	qual := types.RelativeTo(pkg)
+	var terms []string
+	for _, p := range fn.Params {
+		s := w.sortOf(p.Type())
+		if !isScalarSort(s) {
+			return false, fmt.Sprintf("parameter %s has non-scalar type %s: no generic replay; solver model attached", p.Name(), p.Type())
+		}
+		terms = append(terms, q("p_"+p.Name()))
+	}
+	vals, err := getValues(rc.ob, terms, 20)
+	if err != nil {
+		return false, "could not obtain model values: " + err.Error()
+	}
+	var args []string
+	inputs := map[string]string{}
+	for _, p := range fn.Params {
+		s := w.sortOf(p.Type())
+		lit, ok := smtToGoLiteral(vals[q("p_"+p.Name())], s, p.Type(), qual)
+		if !ok {
+			return false, "cannot convert model value " + vals[q("p_"+p.Name())] + " for " + p.Name()
+		}
+		args = append(args, lit)
+		inputs[p.Name()] = lit
+	}
+	rc.rep["inputs"] = inputs
+	// build call expression
+	var call string
+	if fn.Signature.Recv() != nil {
+		recv := args[0]
+		call = fmt.Sprintf("(%s).%s(%s)", recv, fn.Name(), strings.Join(args[1:], ", "))
+	} else {
+		call = fmt.Sprintf("%s(%s)", fn.Name(), strings.Join(args, ", "))
+	}
+	nres := fn.Signature.Results().Len()
+	var lhs []string
+	for i := 0; i < nres; i++ {
+		lhs = append(lhs, fmt.Sprintf("r%d", i))
+	}
+	assign := ""
+	if nres > 0 {
+		assign = strings.Join(lhs, ", ") + " := "
+	}
+	var body strings.Builder
+	body.WriteString(fmt.Sprintf("package %s\n\nimport (\n\t\"fmt\"\n\t\"testing\"\n)\n\n", pkg.Name()))
+	body.WriteString("func TestGovcReplay(t *testing.T) {\n")
+	body.WriteString("\tdefer func() {\n\t\tif r := recover(); r != nil {\n\t\t\tfmt.Printf(\"GOVC-PANIC %v\\n\", r)\n\t\t}\n\t}()\n")
+	body.WriteString("\t" + assign + call + "\n")
+	for i := 0; i < nres; i++ {
+		rt := fn.Signature.Results().At(i).Type()
+		s := w.sortOf(rt)
+		switch {
+		case s.Kind == KIface:
+			body.WriteString(fmt.Sprintf("\tfmt.Printf(\"GOVC-RESULT %d iface %%v %%T\\n\", r%d == nil, r%d)\n", i, i, i))
+		case s.Kind == KString:
+			body.WriteString(fmt.Sprintf("\tfmt.Printf(\"GOVC-RESULT %d string %%q\\n\", string(r%d))\n", i, i))
+		case s.Kind == KBool:
+			body.WriteString(fmt.Sprintf("\tfmt.Printf(\"GOVC-RESULT %d bool %%v\\n\", bool(r%d))\n", i, i))
+		case s.Kind == KInt && isScalarSort(s):
+			body.WriteString(fmt.Sprintf("\tfmt.Printf(\"GOVC-RESULT %d int %%d\\n\", r%d)\n", i, i))
+		case s.Kind == KReal:
+			body.WriteString(fmt.Sprintf("\tfmt.Printf(\"GOVC-RESULT %d real %%v\\n\", float64(r%d))\n", i, i))
+		default:
+			body.WriteString(fmt.Sprintf("\t_ = r%d\n\tfmt.Printf(\"GOVC-RESULT %d opaque\\n\")\n", i, i))
+		}
+	}
+	body.WriteString("\tfmt.Println(\"GOVC-DONE\")\n}\n")
+	out, err := rc.runInPackageTest(pkg, body.String())
+	rc.rep["replay_test"] = body.String()
+	rc.rep["replay_output"] = truncate(out, 4000)
+	if err != nil && !strings.Contains(out, "GOVC-") {
+		return false, "replay test did not run: " + err.Error()
+	}
+	rc.rep["replay_call"] = call
+	// interpret
+	panicked := strings.Contains(out, "GOVC-PANIC")
+	switch rc.ob.Kind {
+	case "nopanic":
+		if panicked {
+			rc.rep["replay"] = "panic observed on the real code"
+			return true, ""
+		}
+		return false, "no panic observed for the model's input"
+	case "assert":
+		// failing vAssert at the obligation's position
+		want := rc.ob.Where
+		for _, line := range strings.Split(out, "\n") {
+			if strings.HasPrefix(line, "GOVC-ASSERT-FAIL ") {
+				loc := strings.TrimPrefix(line, "GOVC-ASSERT-FAIL ")
+				if i := strings.LastIndex(loc, "/"); i >= 0 {
+					loc = loc[i+1:]
+				}
+				if loc == want {
+					rc.rep["replay"] = "vAssert at " + want + " is false on the real code for the model's input"
+					return true, ""
+				}
+			}
+		}
+		if panicked {
+			return false, "harness panicked before reaching the assertion"
+		}
+		return false, "assertion held on the real code for the model's input (the failing proof step is in a callee contract or the abstraction)"
+	case "requires":
+		return false, "precondition of a callee not provable at this call site; no input replay for call-site obligations"
+	case "ensures":
+		if panicked {
+			return false, "function panicked on the model's input"
+		}
+		return rc.evalEnsuresOnGround(out, vals)
+	}
+	return false, "no replay strategy for obligation kind " + rc.ob.Kind
+}
+
+// evalEnsuresOnGround evaluates the ensures clause with parameters and
+// results bound to the observed ground values.
+func (rc *replayCtx) evalEnsuresOnGround(out string, vals map[string]string) (bool, string) {
+	fn := rc.fn
+	if rc.c == nil {
+		return false, "no contract"
+	}
+	// which ensures clause
+	m := regexp.MustCompile(`#ensures(\d+)@`).FindStringSubmatch(rc.ob.Name)
+	if m == nil {
+		return false, "cannot identify ensures clause"
+	}
+	k, _ := strconv.Atoi(m[1])
+	if k < 1 || k > len(rc.c.Ensures) {
+		return false, "ensures index out of range"
+	}
+	clause := rc.c.Ensures[k-1]
+	w := newWorld(rc.prog, rc.ob.W.BV)
+	env := map[string]Term{}
+	for i, p := range fn.Params {
+		s := w.sortOf(p.Type())
+		t := Term{vals[q("p_"+p.Name())], s}
+		env[p.Name()] = t
+		env[fmt.Sprintf("arg%d", i)] = t
+	}
+	res := fn.Signature.Results()
+	observed := map[string]string{}
+	for _, line := range strings.Split(out, "\n") {
+		if !strings.HasPrefix(line, "GOVC-RESULT ") {
+			continue
+		}
+		f := strings.SplitN(strings.TrimPrefix(line, "GOVC-RESULT "), " ", 3)
+		if len(f) < 2 {
+			continue
+		}
+		i, _ := strconv.Atoi(f[0])
+		if i >= res.Len() {
+			continue
+		}
+		s := w.sortOf(res.At(i).Type())
+		var t Term
+		switch f[1] {
+		case "int":
+			v, ok := new(big.Int).SetString(strings.TrimSpace(f[2]), 10)
+			if !ok {
+				return false, "bad int result"
+			}
+			t = w.intLit(v, s)
+		case "bool":
+			t = Term{strings.TrimSpace(f[2]), s}
+		case "string":
+			str, err := strconv.Unquote(strings.TrimSpace(f[2]))
+			if err != nil {
+				return false, "bad string result"
+			}
+			t = Term{strLit(str), s}
+		case "real":
+			r, ok := new(big.Rat).SetString(strings.TrimSpace(f[2]))
+			if !ok {
+				return false, "bad real result"
+			}
+			t = Term{ratLit(r), s}
+		case "iface":
+			parts := strings.Fields(f[2])
+			if parts[0] == "true" {
+				t = Term{"(mk-iface 0 0)", s}
+			} else {
+				t = Term{"(mk-iface 1 1)", s}
+			}
+		default:
+			return false, "result " + f[0] + " is not a scalar: cannot evaluate the clause on ground values"
+		}
+		observed[fmt.Sprintf("result%d", i)] = t.S
+		env[fmt.Sprintf("result%d", i)] = t
+		if res.Len() == 1 {
+			env["result"] = t
+		}
+		if n := res.At(i).Name(); n != "" && n != "_" {
+			env[n] = t
+		}
+	}
+	rc.rep["observed"] = observed
+	st := &State{heaps: map[string]string{}, locals: map[string]string{}, alloc: "0"}
+	ec := &evalCtx{w: w, pkg: fn.Pkg.Pkg, env: env, st: st, old: st}
+	var term Term
+	var evalErr error
+	func() {
+		defer func() {
+			if r := recover(); r != nil {
+				evalErr = fmt.Errorf("%v", r)
+			}
+		}()
+		term = ec.evalBool(clause.E)
+	}()
+	if evalErr != nil {
+		return false, "cannot evaluate clause on ground values: " + evalErr.Error()
+	}
+	if len(w.constDecls) > 0 {
+		return false, "clause mentions the heap: cannot evaluate on ground values"
+	}
+	ob := &Obligation{Name: "ground", NFacts: 0, Goal: term.S, Reach: "true", W: w}
+	qt := w.queryText(ob, false)
+	dir, _ := os.MkdirTemp("", "govc-ground-")
+	defer os.RemoveAll(dir)
+	r := solve(qt, dir, "ground", 20, 0, false)
+	rc.rep["ground_clause"] = term.S
+	rc.rep["ground_status"] = r.Status
+	if r.Status == "sat" {
+		rc.rep["replay"] = "the real function's observed result violates the clause: " + clause.Src
+		return true, ""
+	}
+	if r.Status == "unsat" {
+		return false, "the real function satisfies the clause on the model's input (abstraction was too coarse)"
+	}
+	return false, "ground evaluation inconclusive: " + r.Status
+}
+
+// runInPackageTest injects a test file (plus the lemma overlay with recording
+// markers) into pkg's directory via -overlay and runs it.
+func (rc *replayCtx) runInPackageTest(pkg *types.Package, testSrc string) (string, error) {
+	rel := strings.TrimPrefix(strings.TrimPrefix(pkg.Path(), modPath), "/")
+	pkgDir := filepath.Join(rc.o.Repo, rel)
+	dir, err := os.MkdirTemp("", "govc-replay-")
+	if err != nil {
+		return "", err
+	}
+	defer os.RemoveAll(dir)
+	ov := map[string]string{}
+	tf := filepath.Join(dir, "zz_govc_replay_test.go")
+	os.WriteFile(tf, []byte(testSrc), 0o644)
+	ov[filepath.Join(pkgDir, "zz_govc_replay_test.go")] = tf
+	// lemma files
+	ldir := filepath.Join(rc.o.Verif, "lemmas", relOrRoot(rel))
+	ents, _ := os.ReadDir(ldir)
+	for _, e := range ents {
+		if e.IsDir() || !strings.HasSuffix(e.Name(), ".go") {
+			continue
+		}
+		src := filepath.Join(ldir, e.Name())
+		if e.Name() == "markers.go" {
+			mf := filepath.Join(dir, "markers.go")
+			os.WriteFile(mf, []byte(fmt.Sprintf(replayMarkers, pkg.Name())), 0o644)
+			src = mf
+		}
+		ov[filepath.Join(pkgDir, "zz_verif_"+e.Name())] = src
+	}
+	ovb, _ := json.Marshal(map[string]interface{}{"Replace": ov})
+	ovf := filepath.Join(dir, "overlay.json")
+	os.WriteFile(ovf, ovb, 0o644)
+	ctx, cancel := context.WithTimeout(context.Background(), 150*time.Second)
+	defer cancel()
+	cmd := exec.CommandContext(ctx, "go", "test", "-overlay", ovf, "-tags", "verif", "-vet=off", "-count=1", "-timeout", "60s", "-v", "-run", "^TestGovcReplay$", ".")
+	cmd.Dir = pkgDir
+	cmd.Env = append(os.Environ(), "GOFLAGS=-mod=mod", "GOPROXY=off", "GOSUMDB=off", "GOTOOLCHAIN=local")
+	var buf bytes.Buffer
+	cmd.Stdout = &buf
+	cmd.Stderr = &buf
+	err = cmd.Run()
+	return buf.String(), err
+}
+
+func runReplay(path string) int {
+	b, err := os.ReadFile(path)
 	if err != nil {
 		fmt.Println("ERROR:", err)
 		return 2
 	}
-	fmt.Println(string(b))
+	var rep map[string]interface{}
+	if err := json.Unmarshal(b, &rep); err != nil {
+		fmt.Println("ERROR:", err)
+		return 2
+	}
+	fmt.Printf("property:   %v\nobligation: %v\nclause:     %v\nstatus:     %v\nconfirmed:  %v\n", rep["property"], rep["obligation"], rep["clause"], rep["solver_status"], rep["confirmed_on_real_code"])
+	if v, ok := rep["replay"]; ok {
+		fmt.Printf("replay:     %v\n", v)
+	}
+	if v, ok := rep["inputs"]; ok {
+		fmt.Printf("inputs:     %v\n", v)
+	}
+	if v, ok := rep["replay_call"]; ok {
+		fmt.Printf("call:       %v\n", v)
+	}
+	if v, ok := rep["replay_output"]; ok {
+		fmt.Printf("output of the replay on the real code:\n%v\n", v)
+	}
+	if rep["confirmed_on_real_code"] == true {
+		return 1
+	}
 	return 0
 }
